@@ -200,6 +200,12 @@ Section EquivModel.
       + sumn k (fun a => sumn k (fun b =>
           delta (nbr nb x a) i * delta (nbr nb x b) j * - (Gx x a b)))).
 
+  (* hessian_weight_matrix (HLLE): per sample x the k x k matrix Hx x = Yi_r Yi_r^T (null-space
+     estimator built from the local eigenvectors, an ORACLE value): triplets (n_a, n_b, Hx_ab) *)
+  Definition hlle_M (n k : nat) (nb : nat -> list nat) (Hx : nat -> mat F) : mat F :=
+    fun i j => sumn n (fun x => sumn k (fun a => sumn k (fun b =>
+          delta (nbr nb x a) i * delta (nbr nb x b) j * Hx x a b))).
+
   (* ---------------------------------------------------------------- *)
   (* Laplacian Eigenmaps / LPP: compute_laplacian                      *)
   (* ---------------------------------------------------------------- *)
